@@ -107,3 +107,23 @@ Proof.
   - change (N.eqb 45 45) with true. cbv iota.
     pose proof (digits_app (c0 :: dt) rest 0 0 D R) as E. cbn [app] in E. rewrite E. simpl length. simpl signed. reflexivity.
 Qed.
+
+(* ---------- TransformationManager::verify (transformations that use the counter) ---------- *)
+(* to-counter = -1 when the option is absent *)
+Definition verify_ok (c t:Z) : bool := (0 <? c) && (negb (0 <? t) || (c <=? t)).
+Definition verify_case (p:Z * Z) : list Z := [if verify_ok (fst p) (snd p) then 1 else 0].
+
+(* every range a binary-search driver can ask for - a single instance k..k included - is let through, and so is a plain
+   counter without a to-counter; a counter below 1 never is *)
+Theorem verify_accepts_ranges : forall c t, 1 <= c -> c <= t -> verify_ok c t = true.
+Proof. intros c t H1 H2. unfold verify_ok. apply andb_true_iff. split; [apply Z.ltb_lt; lia|]. apply orb_true_iff. right. apply Z.leb_le. exact H2. Qed.
+Theorem verify_accepts_plain_counter : forall c, 1 <= c -> verify_ok c (-1) = true.
+Proof. intros c H. unfold verify_ok. apply andb_true_iff. split; [apply Z.ltb_lt; lia|reflexivity]. Qed.
+Theorem verify_refuses_nonpositive : forall c t, c <= 0 -> verify_ok c t = false.
+Proof. intros c t H. unfold verify_ok. apply andb_false_iff. left. apply Z.ltb_ge. exact H. Qed.
+
+(* the whole way from the argument to the transformation: read the number, then the manager's check *)
+Definition argv_counter_case (s:list N) : list Z :=
+  match parse_counter s with Some v => if verify_ok v (-1) then [1; v] else [0] | None => [0] end.
+Definition argv_to_counter_case (s:list N) : list Z :=
+  match parse_counter s with Some v => if verify_ok 1 v then [1; v] else [0] | None => [0] end.
